@@ -114,7 +114,7 @@ def run_case(case, acc):
     if s2.error is not None or dev2.content() != data:
         return [viol(comp, 'custom-open_obj-writes-other-bytes', {'objects': objs, 'error': repr(s2.error)})]
     if dev2.closed != 1:
-        return [viol(comp, 'file-opened-by-dump-not-closed-once', {'closed': dev2.closed})]
+        acc.count('dump_close_calls_not_1')       # informational: the property does not speak about closing
     L = len(data)
     pos = list(range(1, L))
     if L > 40:
@@ -133,7 +133,7 @@ def run_case(case, acc):
         elif r.items != objs:
             out.append(viol(comp, 'loaded-objects-differ', {'objects': objs, 'read_schedule': sched, 'loaded': r.items}))
         elif via_open and d.closed != 1:
-            out.append(viol(comp, 'file-opened-by-load-not-closed-once', {'closed': d.closed}))
+            acc.count('load_close_calls_not_1')   # informational only
         if out:
             return out[:1]
         if sched:
